@@ -191,6 +191,27 @@ theorem C25_run_clean_partial (h : History) (cfg : Cfg) (hgap : cfg.gapCheck = t
     · exact ih _ hinv (fun s' hs' => hhon s' (List.mem_cons_of_mem _ hs'))
         (fun o' ho' => hdirty o' (Or.inr ho')) o ho hres
 
+/-- **Serial rollback.** If the notification names a serial *below* the local one (same session
+or not) and the update is reported successful, it went through the snapshot path (or Not
+Modified): the delta path cannot complete, because `calc_deltas` never answers "nothing to do"
+for a lower serial. Together with `C25_snapshot_reestablishes_clean` the copy is then the server's
+snapshot at the (lower) notified serial. -/
+theorem C25_rollback_needs_snapshot (cfg : Cfg) (hgap : cfg.gapCheck = true) (now draw : Nat)
+    (etag lm : Option Nat) (n : Notif) (fs : Files) (l l' : Local) (tr : List Nat)
+    (hlow : n.serial < l.state.serial) :
+    deltaUpdate cfg now draw etag lm n fs l ≠ .done l' tr := by
+  intro hd
+  obtain ⟨ds, hcalc, _, _, _⟩ := deltaUpdate_done hd
+  obtain ⟨_, _, hlen⟩ := calcDeltas_some hgap hcalc
+  omega
+
+/-- The rollback branch on concrete data: local serial 12, notified 10 with deltas 9 and 10. -/
+example : calcDeltas { maxDeltaCount := 3, maxListLen := 6, gapCheck := true } 10
+    [ { serial := 9, file := 1, hash := 1, foreign := false },
+      { serial := 10, file := 2, hash := 2, foreign := false } ]
+    { session := 0, serial := 12, etag := none, lm := none, updated := 0, bestBefore := 0,
+      deltaState := [] } = none := by decide
+
 /-! ## Negation witnesses -/
 
 namespace C25Witness
